@@ -1,5 +1,6 @@
 import JominiModel.Model.BinDe
 import JominiModel.Spec.BinDoc
+import JominiModel.Proofs.BinDeSeq
 /-
 Helper lemmas for C04: per-token dispatch of the three path models against the reference.
 -/
@@ -17,15 +18,19 @@ def LeafTy : Ty → Prop
   simp [visitPrim]
 
 /-- both sequential paths, any leaf token, any leaf-like type: the reference value, input untouched. -/
-theorem seq_leaf (p : Path) (c : Cfg) (f : Nat) (ty : Ty) (h : LeafTy ty) (l : BLeaf) (rest : List Tok) :
+theorem seq_leaf (p : Path) (c : Cfg) (f : Nat) (ty : Ty) (h : LeafTy ty) (l : BLeaf) (rest : List Tok)
+    (hl : plainTok l.tok = true) :
     deTok p c (f + 1) ty l.tok rest = (valLeaf c ty l).map (fun v => (v, rest)) := by
+  have hn := fun ty => normTok_plain p ty l.tok rest hl
   cases ty <;> simp [LeafTy] at h <;>
     (cases l with
      | id n =>
-       simp only [deTok, hinted, deser, leafOf, valLeaf, leafPrim, BLeaf.tok, Event.ofRes, Except.map, enumVal]
+       simp only [BLeaf.tok] at hn
+       simp only [deTok, hn, hinted, deser, leafOf, valLeaf, leafPrim, BLeaf.tok, Event.ofRes, Except.map, enumVal]
        cases idPrim c n <;> simp [Except.map, leafOf] <;> (try (split <;> simp_all [Except.map]))
      | _ =>
-       simp [deTok, hinted, deser, leafOf, valLeaf, leafPrim, BLeaf.tok, Event.ofRes, Except.map, enumVal] <;>
+       simp only [BLeaf.tok] at hn
+       simp [deTok, hn, hinted, deser, leafOf, valLeaf, leafPrim, BLeaf.tok, Event.ofRes, Except.map, enumVal] <;>
        (try (split <;> simp_all [Except.map])))
 
 /-- tape path, the same. -/
@@ -63,13 +68,13 @@ theorem stream_fetch_rgb (col : Rgb) (rest : List Tok) :
 
 theorem stream_rgb_seq (c : Cfg) (f : Nat) (et : Ty) (col : Rgb) (rest : List Tok) :
     deTok .stream c (f + 1) (.seq et) (.rgb col) rest = (colorVisit (.seq et) col).map (fun v => (v, rest)) := by
-  simp [deTok]
+  simp [deTok, normTok]
 
-/-- on-demand: `deserialize_seq` reads the block itself. -/
+/-- on-demand: the block after the marker is read when the token is consumed. -/
 theorem ondemand_rgb_seq (c : Cfg) (f : Nat) (et : Ty) (col : Rgb) (rest : List Tok) :
     deTok .ondemand c (f + 1) (.seq et) (.id RGB_ID) (rgbBody col ++ rest) =
       (colorVisit (.seq et) col).map (fun v => (v, rest)) := by
-  simp [deTok, readRgb_body]
+  simp [deTok, normTok, readRgb_body, RGB_ID]
 
 theorem tape_rgb_seq (c : Cfg) (tape : List TTok) (f : Nat) (et : Ty) (col : Rgb) (idx : Nat)
     (ht : tape[idx]? = some (.rgb col)) :
